@@ -174,9 +174,12 @@ CLAIMED = {
              "simulating two real agents per transport (UDP with loss, ICE-TCP over loopback TCP, pseudo-TCP reliable mode) with "
              "messages of 1..65535 bytes (TCP up to 3*0xF800) split over 1..8 buffers, random / STUN-lookalike / RTP payloads: "
              "bytes, boundaries, order and piece lengths are compared. One genuine defect found this way was fixed (a5ed163). "
-             "RFC 4571 reassembly is C17's theorem, the reliable byte stream is C08's.",
-        note="Trusted: Lean kernel, Copy/Gate models, kern_drv + sim_drv harnesses, kernel TCP/UDP semantics; bytestream-TCP mode and "
-             "receive-buffer layouts of nice_agent_recv_messages are not explored.",
+             "RFC 4571 reassembly is C17's theorem, the reliable byte stream is C08's. The receive iterator's bookkeeping "
+             "(nice_input_message_iter_get_n_valid_messages / _is_at_end) is REGENERATED from agent/agent.c on every run and proved to "
+             "count every message that holds a byte. Pull-mode receivers (nice_agent_recv_messages_nonblocking into random scatter "
+             "layouts, empty buffers included) run over ICE-TCP bytestream mode and over pseudo-TCP.",
+        note="Trusted: Lean kernel, Copy/Gate models, kern_drv + sim_drv harnesses, kernel TCP/UDP semantics; the bytestream-TCP transport "
+             "is exercised on the real code only (not in the copy model).",
         technique="Lean 4 proof of copy/split kernels + differential correspondence + per-transport simulation",
         design="5/C02"),
     "C08": dict(
